@@ -1023,7 +1023,8 @@ def all_sweeps():
     out += [("join", sweep_join), ("ppt_build", sweep_ppt_build), ("ppt_parse", sweep_ppt_parse), ("ppt_fixture", check_ppt_fixture),
             ("rtf", sweep_rtf), ("pptx", sweep_pptx), ("odp", sweep_odp), ("epub", sweep_epub), ("pdf", sweep_pdf), ("mbox", sweep_mbox),
             ("xlsx", lambda: sweep_sheets("xlsx")), ("ods", lambda: sweep_sheets("ods")),
-            ("odp_rich", sweep_odp_rich), ("pptx_rich", sweep_pptx_rich), ("pdf_text", sweep_pdf_text),
+            ("odp_rich", sweep_odp_rich), ("pptx_rich", sweep_pptx_rich), ("pdf_text", sweep_pdf_text), ("epub_rich", sweep_epub_rich),
+            ("ppt_tokens", sweep_ppt_tokens), ("flowing:txt", lambda: sweep_flowing("txt")), ("flowing:html", lambda: sweep_flowing("html")),
             ("mail_parts:eml", lambda: sweep_mail_parts("eml")), ("mail_parts:mbox", lambda: sweep_mail_parts("mbox", exclude=_recorded("mbox")))]
     return out
 
@@ -1040,18 +1041,118 @@ def _recorded(cls):
     return sorted({x for f in kf if f.get("property") == "C03" and f.get("class") == cls for x in f.get("exclusion", [])})
 
 
+def check_epub_rich(chapter_shapes):
+    """chapters given as lists of block kinds (h1 / p / li): every block text exactly once, in the unit of its chapter"""
+    from sharepoint2text.parsing.extractors.epub_extractor import read_epub
+    chapters = []
+    for i, kinds in enumerate(chapter_shapes):
+        body = ""
+        for j, k in enumerate(kinds):
+            t = f"tok{i}x{j}"
+            body += f"<ul><li>{t}</li></ul>" if k == "li" else f"<{k}>{t}</{k}>"
+        chapters.append(body)
+    buf = io.BytesIO()
+    with zipfile.ZipFile(buf, "w") as z:
+        z.writestr("mimetype", "application/epub+zip")
+        z.writestr("META-INF/container.xml", '<?xml version="1.0"?><container version="1.0" xmlns="urn:oasis:names:tc:opendocument:xmlns:container">'
+                                             '<rootfiles><rootfile full-path="OEBPS/content.opf" media-type="application/oebps-package+xml"/></rootfiles></container>')
+        items = "".join(f'<item id="c{i}" href="c{i}.xhtml" media-type="application/xhtml+xml"/>' for i in range(len(chapters)))
+        refs = "".join(f'<itemref idref="c{i}"/>' for i in range(len(chapters)))
+        z.writestr("OEBPS/content.opf", '<?xml version="1.0"?><package xmlns="http://www.idpf.org/2007/opf" version="3.0" unique-identifier="id">'
+                                        '<metadata xmlns:dc="http://purl.org/dc/elements/1.1/"><dc:title>T</dc:title><dc:identifier id="id">x</dc:identifier></metadata>'
+                                        f'<manifest>{items}</manifest><spine>{refs}</spine></package>')
+        for i, b in enumerate(chapters):
+            z.writestr(f"OEBPS/c{i}.xhtml", f'<?xml version="1.0"?><html xmlns="http://www.w3.org/1999/xhtml"><head><title>c{i}</title></head><body>{b}</body></html>')
+    c = next(read_epub(io.BytesIO(buf.getvalue())))
+    obs = observe(c)
+    want = {f"tok{i}x{j}": i + 1 for i, kinds in enumerate(chapter_shapes) for j in range(len(kinds))}
+    why = None if [n for n, _t in obs] == list(range(1, len(chapter_shapes) + 1)) else f"unit numbers {[n for n, _t in obs]}"
+    why = why or token_coverage(obs, want, "block")
+    if why is None and c.get_full_text() != spec_fulltext(obs):
+        why = "full text differs from the joined unit texts"
+    if why:
+        return {"target": "epub_extractor.py::read_epub", "inputs": {"check": "epub_rich", "blocks_per_chapter": chapter_shapes},
+                "expected": "one unit per chapter; every block text exactly once, in the unit of its chapter", "observed": f"{why}; units={obs!r}", "check": "epub_rich"}
+    return None
+
+
+def sweep_epub_rich():
+    for kinds in itertools.chain(itertools.product(["h1", "p", "li"], repeat=2), itertools.product(["h1", "p", "li"], repeat=3)):
+        for layout in ([list(kinds)], [["p"], list(kinds)]):
+            r = check_epub_rich(layout)
+            if r:
+                return r
+    return None
+
+
+def check_ppt_tokens(slide_counts, loose=0):
+    """legacy ppt record stream: slide k carries slide_counts[k] text atoms; every atom text exactly once in the unit of its slide"""
+    from sharepoint2text.parsing.extractors.ms_legacy import ppt_extractor as P
+    dt = _dt()
+    slides = [[f"tok{i}x{j}" for j in range(n)] for i, n in enumerate(slide_counts)]
+    data = ppt_stream(slides, [f"loose{j}" for j in range(loose)])
+    content = dt.PptContent()
+    P._parse_ppt_document(data, content)
+    obs = observe(content)
+    want = {t: i + 1 for i, ts in enumerate(slides) for t in ts}
+    why = token_coverage(obs, want, "text atom")
+    if why:
+        return {"target": "ppt_extractor.py::_parse_ppt_document", "inputs": {"check": "ppt_tokens", "text_atoms_per_slide": list(slide_counts), "loose": loose},
+                "expected": "every text atom of a slide exactly once, in the unit of that slide", "observed": f"{why}; units={obs!r}", "check": "ppt_tokens"}
+    return None
+
+
+def sweep_ppt_tokens():
+    for n in (1, 2, 3):
+        for counts in itertools.product([1, 2, 3], repeat=n):
+            r = check_ppt_tokens(list(counts))
+            if r:
+                return r
+    return None
+
+
+def check_flowing(fmt, paragraphs):
+    """plain text / html: one unit numbered 1 holding every paragraph exactly once"""
+    toks = [f"tok{j}" for j in range(paragraphs)]
+    if fmt == "txt":
+        from sharepoint2text.parsing.extractors.plain_extractor import read_plain_text as reader
+        data = ("\n\n".join(toks) + "\n").encode()
+    else:
+        from sharepoint2text.parsing.extractors.html_extractor import read_html as reader
+        data = ("<html><head><title>t</title></head><body>" + "".join(f"<p>{t}</p>" if j % 2 == 0 else f"<div>{t}</div>" for j, t in enumerate(toks)) + "</body></html>").encode()
+    c = next(reader(io.BytesIO(data)))
+    obs = observe(c)
+    why = token_coverage(obs, {t: 1 for t in toks}, "paragraph") if [n for n, _t in obs] == [1] else f"units {obs!r}"
+    if why is None and c.get_full_text() != spec_fulltext(obs):
+        why = "full text differs from the joined unit texts"
+    if why:
+        return {"target": f"{'plain' if fmt == 'txt' else 'html'}_extractor.py::read", "inputs": {"check": "flowing", "format": fmt, "paragraphs": paragraphs},
+                "expected": "one unit numbered 1 holding every paragraph exactly once", "observed": why, "check": "flowing"}
+    return None
+
+
+def sweep_flowing(fmt):
+    for n in (0, 1, 2, 3):
+        r = check_flowing(fmt, n)
+        if r:
+            return r
+    return None
+
+
 DOCUMENT_SCOPES = {
     # format -> native sweeps over generated documents (read with the real extractor): numbering, order, token coverage, full text
     "pdf": lambda: sweep_pdf() or sweep_pdf_text(),
     "pptx": lambda: sweep_pptx() or sweep_pptx_rich(),
     "odp": lambda: sweep_odp() or sweep_odp_rich(),
-    "epub": lambda: sweep_epub(),
+    "epub": lambda: sweep_epub() or sweep_epub_rich(),
+    "txt": lambda: sweep_flowing("txt"),
+    "html": lambda: sweep_flowing("html"),
     "rtf": lambda: sweep_rtf(),
     "xlsx": lambda: sweep_sheets("xlsx"),
     "ods": lambda: sweep_sheets("ods"),
     "eml": lambda: sweep_mail_parts("eml", exclude=EXCLUDE.get("eml", ())),
     "mbox": lambda: sweep_mbox() or sweep_mail_parts("mbox", exclude=EXCLUDE.get("mbox", ())),
-    "ppt": lambda: sweep_ppt_parse() or check_ppt_fixture(),
+    "ppt": lambda: sweep_ppt_parse() or sweep_ppt_tokens() or check_ppt_fixture(),
 }
 
 
@@ -1105,6 +1206,12 @@ def rerun(stored):
         r = check_single(inp["class"], inp["text"], inp.get("html", ""))
     elif chk == "join":
         r = check_join(inp["unit_texts"])
+    elif chk == "epub_rich":
+        r = check_epub_rich(inp["blocks_per_chapter"])
+    elif chk == "ppt_tokens":
+        r = check_ppt_tokens(inp["text_atoms_per_slide"], inp.get("loose", 0))
+    elif chk == "flowing":
+        r = check_flowing(inp["format"], inp["paragraphs"])
     elif chk == "odp_rich":
         r = check_odp_rich(inp["paragraph_styles_per_slide"])
     elif chk == "pptx_rich":
